@@ -23,6 +23,8 @@ def known_matcher(v, k):
         return v.get("nonfinite") and v.get("kind") in ("incompatible-units-at-runtime", "runtime-dimension-differs")
     if sig.get("kind") == "zero-literal-as-conversion-target":
         return v.get("kind") == "incompatible-units-at-runtime" and v.get("zero_target")
+    if sig.get("kind") == "second-base-unit":
+        return v.get("kind") == "incompatible-units-at-runtime" and re.search(r"'[^']*zbu[^']*'", v.get("msg", "")) is not None
     if sig.get("kind") == "composite-noninteger-exponent":
         return v.get("kind") == "runtime-dimension-differs" and v.get("composite_exponent")
     return False
